@@ -22,6 +22,28 @@ pub struct W {
     pub net: LocalNetwork,
     /// height of the block before the wallet birthday
     pub base: u32,
+    /// the wallet's accounts in harness order (account 1 = the test account, account 2 = a second one
+    /// under the same seed), by the `accounts.id` of their database row
+    pub acct_rows: Vec<i64>,
+    pub acct_ids: Vec<zcash_client_sqlite::AccountUuid>,
+}
+
+fn second_account(st: &mut St) -> (Vec<Keys>, Vec<i64>, Vec<zcash_client_sqlite::AccountUuid>) {
+    let first = st.test_account().unwrap().id();
+    let ufvk1 = st.test_account().unwrap().account().ufvk().unwrap().clone();
+    let (second, usk2) = st.create_account_from_test_seed("second");
+    let ufvk2 = usk2.to_unified_full_viewing_key();
+    let rows: Vec<(i64, Vec<u8>)> = st
+        .wallet()
+        .conn()
+        .prepare("SELECT id, uuid FROM accounts ORDER BY id")
+        .unwrap()
+        .query_map([], |r| Ok((r.get(0)?, r.get(1)?)))
+        .unwrap()
+        .map(|r| r.unwrap())
+        .collect();
+    let row_of = |u: &zcash_client_sqlite::AccountUuid| rows.iter().find(|(_, b)| b.as_slice() == u.expose_uuid().as_bytes()).map(|(i, _)| *i).unwrap();
+    (vec![Keys::from_ufvk(&ufvk1), Keys::from_ufvk(&ufvk2)], vec![row_of(&first), row_of(&second)], vec![first, second])
 }
 
 pub fn network(ironwood: bool) -> LocalNetwork {
@@ -55,10 +77,10 @@ impl W {
             .with_block_cache(BlockCache::new())
             .with_account_from_sapling_activation(BlockHash([0; 32]))
             .build();
+        let mut st = st;
         let base = u32::from(st.sapling_activation_height()) - 1;
-        let ufvk = st.test_account().unwrap().account().ufvk().unwrap().clone();
-        let keys = vec![Keys::from_ufvk(&ufvk)];
-        (W { st, net, base }, keys)
+        let (keys, acct_rows, acct_ids) = second_account(&mut st);
+        (W { st, net, base, acct_rows, acct_ids }, keys)
     }
 
     /// A wallet born into a chain whose Sapling and Orchard trees already hold `sap`/`orch` commitments (the
@@ -86,11 +108,11 @@ impl W {
             })
             .with_account_having_current_birthday()
             .build();
+        let mut st = st;
         let init = st.latest_cached_block().unwrap().chain_state().clone();
         let base = u32::from(init.block_height());
-        let ufvk = st.test_account().unwrap().account().ufvk().unwrap().clone();
-        let keys = vec![Keys::from_ufvk(&ufvk)];
-        (W { st, net, base }, keys, init)
+        let (keys, acct_rows, acct_ids) = second_account(&mut st);
+        (W { st, net, base, acct_rows, acct_ids }, keys, init)
     }
 
     /// put_{sapling,orchard,ironwood}_subtree_roots for one completed shard of the harness chain
@@ -173,7 +195,7 @@ impl W {
                 .unwrap()
                 .map(|r| r.unwrap())
                 .collect();
-            for (id, txid, index, value, mined, minobs, _acct) in rows {
+            for (id, txid, index, value, mined, minobs, acct_row) in rows {
                 let txid: [u8; 32] = txid.try_into().unwrap();
                 let note = chain.tx_by_id.get(&txid).and_then(|uid| {
                     chain.notes.iter().find(|(_, ni)| ni.tx == *uid && ni.pool == pool && ni.index == index).map(|(n, _)| *n as i64)
@@ -197,6 +219,7 @@ impl W {
                 spenders.sort();
                 notes.push(json!({
                     "n": note.unwrap_or(-1), "pool": pool.code(), "v": value,
+                    "acct": self.acct_rows.iter().position(|r| *r == acct_row).map(|i| i as i64 + 1).unwrap_or(-1),
                     "mined": rel(mined), "minobs": rel(Some(minobs)),
                     "sp": spenders.iter().map(|(t, m, o)| json!([t, m, o])).collect::<Vec<_>>(),
                 }));
@@ -215,20 +238,21 @@ impl W {
             .collect();
         let summary = self.st.wallet().get_wallet_summary(ConfirmationsPolicy::MIN).unwrap();
         let zero = json!({"S": [0, 0], "O": [0, 0], "I": [0, 0]});
-        let bal = match &summary {
-            None => None,
-            Some(s) => {
-                let acct = self.st.test_account().unwrap().id();
-                match s.account_balances().get(&acct) {
-                    None => None,
-                    Some(b) => Some(json!({
+        let bals: Vec<Option<Value>> = self
+            .acct_ids
+            .iter()
+            .map(|acct| {
+                summary.as_ref().and_then(|s| s.account_balances().get(acct)).map(|b| {
+                    json!({
                         "S": [u64::from(b.sapling_balance().total()), u64::from(b.sapling_balance().uneconomic_value())],
                         "O": [u64::from(b.orchard_balance().total()), u64::from(b.orchard_balance().uneconomic_value())],
                         "I": [u64::from(b.ironwood_balance().total()), u64::from(b.ironwood_balance().uneconomic_value())],
-                    })),
-                }
-            }
-        };
+                    })
+                })
+            })
+            .collect();
+        let bal = if bals.iter().all(|b| b.is_some()) { Some(json!([bals[0].clone().unwrap(), bals[1].clone().unwrap()])) } else { None };
+        let zero = json!([zero.clone(), zero]);
         json!({
             "chk": true,
             "balp": bal.is_some(),
